@@ -27,21 +27,30 @@ In(x)  == [o |-> x.o, owner |-> x.owner, amt |-> T3(x.amt), bh |-> x.bh, kind |-
 Out(x) == [o |-> x.o, owner |-> x.owner, amt |-> T3(x.amt), kind |-> x.kind]
 Tx(t) == [id |-> t.id, type |-> t.type, auto |-> t.auto, signer |-> t.signer, sigok |-> t.sigok,
           ins |-> [i \in DOMAIN t.ins |-> In(t.ins[i])], outs |-> [i \in DOMAIN t.outs |-> Out(t.outs[i])],
-          hops |-> t.hops, pathok |-> t.pathok, edit |-> t.edit]
+          hops |-> [i \in DOMAIN t.hops |-> <<t.hops[i][1], t.hops[i][2]>>], pathok |-> t.pathok, edit |-> t.edit,
+          inner |-> [known |-> t.inner.known, from0 |-> t.inner.from0,
+                     hops |-> [i \in DOMAIN t.inner.hops |-> <<t.inner.hops[i][1], t.inner.hops[i][2]>>]]]
 Hdr(h) == [treasury |-> T3(h.treasury), graveyard |-> T3(h.graveyard), unpaid |-> T3(h.unpaid),
            fees |-> T3(h.fees)]
 ObsUtxo(st) == {[o |-> x.o, owner |-> x.owner, amt |-> LimbNorm(T3(x.amt)), bh |-> x.bh, kind |-> x.kind]
                  : x \in {y \in Rng(st.utxo) : y.sp}}
+
+NoSample == [bf |-> <<0, 0, 0>>, hb |-> <<0, 0, 0>>, dt |-> <<4194303, 0, 0>>, needed |-> <<0, 0, 0>>]
 
 Bad(e, prop, why) == [pos |-> l, scn |-> e.scn, i |-> e.i, prop |-> prop, why |-> why, res |-> e.res]
 
 RECURSIVE PathTo(_, _)
 PathTo(BB, x) == IF x = "" \/ x \notin DOMAIN BB THEN <<>> ELSE Append(PathTo(BB, BB[x].parent), x)
 
+(* the node's by-height index against a path of labels; heights at or below tiph - 2G have been purged ("-") *)
+LcMatches(lc, path, tiph, G) ==
+    /\ Len(lc) = Len(path)
+    /\ \A i \in DOMAIN lc : lc[i] = path[i] \/ (lc[i] = "-" /\ i + 2 * G <= tiph)
+
 InWin(u, tiph, G) == {x \in u : x.bh + G >= tiph}
 
 PropOf(v) ==
-    IF v = "outputs-exceed-inputs" THEN "C02" ELSE "C01"
+    IF v = "outputs-exceed-inputs" THEN "C02" ELSE IF v = "bad-routing-path" THEN "C08" ELSE "C01"
 
 IsPanic(res) == Len(res) >= 6 /\ SubSeq(res, 1, 6) = "Panic:"
 
@@ -60,7 +69,7 @@ BlockChecks(e, BB, UU) ==
         \* really wound block by block (its by-height index lists exactly the ancestors); a node
         \* that adopted a chain whose older blocks it never had runs without input checks
         rooted == newpath # <<>> /\ BB[newpath[1]].parent = "" /\ \A x \in Rng(newpath) : x \in DOMAIN UU
-                  /\ (T.tip = lab => [i \in DOMAIN e.st.lc |-> e.st.lc[i]] = newpath)
+                  /\ (T.tip = lab => LcMatches(e.st.lc, newpath, T.tiph, G))
                   /\ ~env.detached
         pre(x) == IF BB[x].parent = "" THEN {} ELSE UU[BB[x].parent]
         viol(x) == BlockViolations(pre(x), BB[x].txs, BB[x].h, G)
@@ -81,15 +90,17 @@ BlockChecks(e, BB, UU) ==
         \* block is the tip then (after a rejected block: the old tip's)
         tiphdr == IF T.tip = lab THEN Hdr(e.hdr) ELSE IF T.tip \in DOMAIN BB THEN BB[T.tip].hdr ELSE Hdr(e.hdr)
         c02 == IF T.tip # "" /\ T.tip # "?" /\ (T.tip = lab \/ T.tip \in DOMAIN BB) /\ ~env.detached
-                  /\ [i \in DOMAIN e.st.lc |-> e.st.lc[i]] = PathTo(BB, T.tip)
+                  /\ LcMatches(e.st.lc, PathTo(BB, T.tip), T.tiph, G)
                   /\ ~LimbEq(Supply(T.utxo, T.tiph, G, tiphdr), env.issued)
                THEN {Bad(e, "C02", IF adopted THEN "supply-changed"
                                    ELSE IF IsPanic(e.res) THEN "supply-changed-before-abort"
                                    ELSE "supply-changed-by-unaccepted-block")} ELSE {}
         c04 == IF e.res \in {"Invalid", "Exists"} /\ (T.utxo # obs.utxo \/ T.tip # obs.tip)
                THEN {Bad(e, "C04", "rejected-block-changed-ledger")} ELSE {}
+        \* C08: routing work of a block against the requirement
+        short(x) == BB[x].parent # "" /\ LimbLt(BlockWork(BB[x].txs, BB[x].creator), BB[x].needed)
         honest == e.x.bedit = "" /\ rooted /\ viol(lab) = {} /\ e.who = "builder"
-                  /\ BB[lab].parent = obs.tip /\ ~e.x.redelivery
+                  /\ BB[lab].parent = obs.tip /\ ~e.x.redelivery /\ ~short(lab)
         c07 == (IF e.who = "node" /\ e.res # "AddedLc"
                 THEN {Bad(e, "C07", "own-block-rejected-by-producer")} ELSE {})
                \cup (IF e.who = "node" /\ e.x.replica # "" /\ e.x.replica # "AddedLc"
@@ -102,8 +113,37 @@ BlockChecks(e, BB, UU) ==
                                  "zero_root_drop_tx", "resign_other_key", "bump_timestamp_nosign"}
                   /\ adopted
                THEN {Bad(e, "C06", "edited-block-accepted:" \o e.x.bedit)} ELSE {}
-        pan == IF IsPanic(e.res) THEN {Bad(e, "C04", "panic")} ELSE {}
-    IN c01 \cup c13 \cup c13r \cup c03 \cup c02 \cup c04 \cup c07 \cup c06 \cup pan
+        pan == IF IsPanic(e.res) THEN {Bad(e, "C11", IF env.detached THEN "panic-on-chain-without-known-ancestors" ELSE "panic")} ELSE {}
+        \* the work the node computed for the block, against the definition (valid paths only)
+        c08k == IF e.x.bedit = "" /\ \A i \in DOMAIN BB[lab].txs : BB[lab].txs[i].pathok
+                   /\ ~LimbEq(BlockWork(BB[lab].txs, BB[lab].creator), T3(e.hdr.work))
+                THEN {Bad(e, "C08", "block-work-differs-from-definition")} ELSE {}
+        \* C08: every block the node wound had the work; payouts
+        c08w == IF adopted /\ rooted
+                THEN {Bad(e, "C08", "accepted-with-insufficient-routing-work in " \o x) : x \in {y \in Rng(wound) : short(y)}}
+                ELSE {}
+        par(x) == BB[x].parent
+        gpar(x) == IF par(x) = "" THEN "" ELSE BB[par(x)].parent
+        paid2(x) == par(x) # "" /\ ~BB[par(x)].gt /\ gpar(x) # ""
+        elig(x) == {BB[x].gtkey} \cup (IF par(x) = "" THEN {} ELSE EligibleOf(BB[par(x)].txs))
+                     \cup (IF paid2(x) THEN EligibleOf(BB[gpar(x)].txs) ELSE {})
+        collected(x) == IF par(x) = "" THEN LimbZero
+                        ELSE LimbAdd(BB[par(x)].hdr.fees, IF paid2(x) THEN BB[gpar(x)].hdr.fees ELSE LimbZero)
+        feetxs(x) == SelectSeq(BB[x].txs, LAMBDA t : t.type = TFee /\ t.auto)
+        feeouts(x) == UNION {{t.outs[i] : i \in {j \in DOMAIN t.outs : ~IsZero(t.outs[j].amt)}} : t \in Rng(feetxs(x))}
+        c08p == IF adopted /\ rooted
+                THEN UNION {{Bad(e, "C08", "payout-to-ineligible-key:" \o o.owner \o " in " \o x)
+                               : o \in {y \in feeouts(x) : y.owner \notin elig(x)}} : x \in Rng(wound)}
+                     \cup {Bad(e, "C08", "payout-exceeds-fees-collected in " \o x)
+                               : x \in {y \in Rng(wound) : ~LimbLeq(SumOutsOf(feetxs(y)), collected(y))}}
+                ELSE {}
+        \* the requirement itself, against its definition (small values)
+        c08n == IF e.parent # "" /\ LimbIsSmall(T3(e.hdr.pbf)) /\ e.hdr.dt < 500000000 /\ e.hdr.dt > 0 /\ e.hb < 500000000
+                   /\ LET ref == NeededRef(LimbToNat(T3(e.hdr.pbf)), e.hdr.dt, e.hb)
+                          n == T3(e.hdr.needed)
+                      IN ~(LimbIsSmall(n) /\ LimbToNat(n) + 1 >= ref /\ LimbToNat(n) <= ref + 1)
+                THEN {Bad(e, "C08", "requirement-differs-from-definition")} ELSE {}
+    IN c01 \cup c13 \cup c13r \cup c03 \cup c02 \cup c04 \cup c07 \cup c06 \cup pan \cup c08w \cup c08p \cup c08n \cup c08k
 
 (* ---- pool (C14) and wallet (C19) checks on any observed state --------------------- *)
 PoolChecks(e, st, P, u, tiph) ==
@@ -112,7 +152,7 @@ PoolChecks(e, st, P, u, tiph) ==
         known == {id \in ids : id \in DOMAIN P}
         inputs(t) == {t.ins[i].o : i \in {j \in DOMAIN t.ins : ~IsZero(t.ins[j].amt)}}
         shared == \E a, b \in known : a # b /\ inputs(P[a]) \cap inputs(P[b]) # {}
-        stale == {id \in known : ~TxValid(u, P[id], tiph, G)}
+        stale == {id \in known : ~TxValid(u, P[id], tiph + 1, G)}
         allin == UNION {inputs(P[id]) : id \in known}
         locked == {n \in Rng(st.reserved) : n \notin allin /\ n \in Names(u)}
     IN (IF shared THEN {Bad(e, "C14", "two-pooled-transactions-share-an-input")} ELSE {})
@@ -133,18 +173,18 @@ WalletChecks(e, st, u, tiph) ==
 TraceInit ==
     /\ l = 1 /\ bad = {} /\ B = <<>> /\ U = <<>> /\ pool = <<>>
     /\ obs = [tip |-> "", tiph |-> 0, utxo |-> {}]
-    /\ env = [g |-> 100, issued |-> LimbZero, nodekey |-> "", reorgs |-> 0, detached |-> FALSE]
+    /\ env = [g |-> 100, issued |-> LimbZero, nodekey |-> "", reorgs |-> 0, detached |-> FALSE, nd |-> NoSample]
 
 OnReset(e) ==
     /\ B' = <<>> /\ U' = <<>> /\ pool' = <<>>
     /\ obs' = [tip |-> "", tiph |-> 0, utxo |-> {}]
-    /\ env' = [g |-> e.g, issued |-> T3(e.issued), nodekey |-> e.node_key, reorgs |-> 0, detached |-> FALSE]
+    /\ env' = [g |-> e.g, issued |-> T3(e.issued), nodekey |-> e.node_key, reorgs |-> 0, detached |-> FALSE, nd |-> NoSample]
     /\ bad' = bad
 
 OnBlock(e) ==
     LET lab == e.label
         rec == [parent |-> e.parent, h |-> e.h, txs |-> [i \in DOMAIN e.txs |-> Tx(e.txs[i])], gt |-> e.gt,
-                hdr |-> Hdr(e.hdr)]
+                hdr |-> Hdr(e.hdr), creator |-> e.creator, gtkey |-> e.gtkey, needed |-> T3(e.hdr.needed)]
         BB == IF lab \in DOMAIN B THEN B ELSE (lab :> rec) @@ B
         parentU == IF e.parent = "" THEN {} ELSE IF e.parent \in DOMAIN U THEN U[e.parent] ELSE {}
         known == e.parent = "" \/ e.parent \in DOMAIN U
@@ -157,7 +197,7 @@ OnBlock(e) ==
        /\ obs' = T
        /\ pool' = P2
        /\ env' = [env EXCEPT !.reorgs = IF isreorg THEN @ + 1 ELSE @,
-                              !.detached = @ \/ (T.tip \in DOMAIN BB /\ [i \in DOMAIN e.st.lc |-> e.st.lc[i]] # PathTo(BB, T.tip))]
+                              !.detached = @ \/ (T.tip \in DOMAIN BB /\ ~LcMatches(e.st.lc, PathTo(BB, T.tip), T.tiph, env.g))]
        /\ bad' = bad \cup BlockChecks(e, BB, UU)
                      \cup (IF IsPanic(e.res) THEN {} ELSE PoolChecks(e, e.st, P2, T.utxo, T.tiph))
                      \cup (IF IsPanic(e.res) THEN {} ELSE WalletChecks(e, e.st, T.utxo, T.tiph))
@@ -165,7 +205,7 @@ OnBlock(e) ==
 OnSubmit(e) ==
     LET t == Tx(e.tx)
         G == env.g
-        v == TxViolations(obs.utxo, t, obs.tiph, G)   \* window judged at the current tip
+        v == TxViolations(obs.utxo, t, obs.tiph + 1, G)   \* the next block is the earliest that can carry it
         inputs(x) == {x.ins[i].o : i \in {j \in DOMAIN x.ins : ~IsZero(x.ins[j].amt)}}
         conflict == \E id \in DOMAIN pool : inputs(pool[id]) \cap inputs(t) # {}
         pooled == e.res = "Pooled"
@@ -181,6 +221,25 @@ OnSubmit(e) ==
             \cup (IF IsPanic(e.res) THEN {} ELSE PoolChecks(e, e.st, P2, obs.utxo, obs.tiph))
             \cup (IF IsPanic(e.res) THEN {} ELSE WalletChecks(e, e.st, obs.utxo, obs.tiph))
        /\ UNCHANGED <<B, U, obs, env>>
+
+(* a sample of the requirement function (C08): zero from two heartbeats on, never larger than at a   *)
+(* shorter elapsed time for the same burn fee, equal to its definition where that is computable here *)
+OnNeeded(e) ==
+    LET bf == T3(e.bf)  dt == T3(e.dt)  hb == T3(e.hbl)  n == T3(e.needed)
+        prev == env.nd
+        small == LimbIsSmall(bf) /\ LimbIsSmall(dt) /\ LimbIsSmall(hb) /\ ~IsZero(dt)
+    IN \* elapsed time 0 ("times misordered") returns a sentinel, not a requirement: not a sample
+       /\ env' = [env EXCEPT !.nd = IF IsZero(dt) THEN NoSample ELSE [bf |-> bf, hb |-> hb, dt |-> dt, needed |-> n]]
+       /\ bad' = bad
+            \cup (IF IsPanic(e.res) THEN {Bad(e, "C08", "requirement-function-panicked")} ELSE {})
+            \cup (IF LimbLeq(LimbAdd(hb, hb), dt) /\ ~IsZero(n)
+                  THEN {Bad(e, "C08", "requirement-not-zero-after-two-heartbeats")} ELSE {})
+            \cup (IF LimbEq(prev.bf, bf) /\ LimbEq(prev.hb, hb) /\ LimbLeq(prev.dt, dt) /\ ~LimbLeq(n, prev.needed)
+                  THEN {Bad(e, "C08", "requirement-increases-with-elapsed-time")} ELSE {})
+            \cup (IF small /\ LET ref == NeededRef(LimbToNat(bf), LimbToNat(dt), LimbToNat(hb))
+                                IN ~(LimbIsSmall(n) /\ LimbToNat(n) + 1 >= ref /\ LimbToNat(n) <= ref + 1)
+                  THEN {Bad(e, "C08", "requirement-differs-from-definition")} ELSE {})
+       /\ UNCHANGED <<B, U, obs, pool>>
 
 (* pool entries the harness did not submit (the node's own staking transaction) are shown as "?..." *)
 UserIds(p) == {x \in Rng(p) : SubSeq(x, 1, 1) # "?"}
@@ -199,6 +258,7 @@ TraceNext ==
          [] e.ev = "Block"  -> OnBlock(e)
          [] e.ev = "Submit" -> OnSubmit(e)
          [] e.ev = "Bundle" -> OnBundle(e)
+         [] e.ev = "Needed" -> OnNeeded(e)
          [] OTHER -> UNCHANGED <<bad, B, U, obs, pool, env>>
     /\ l' = l + 1
 
